@@ -374,3 +374,19 @@ B('c13-mutate-local-copy', 'C13', FUN, "        return list(reversed(container))
 B('c13-build-with-append', 'C13', FUN, "    return list(value.keys())", "    out = []\n    for k in value:\n        out.append(k)\n    return out")
 B('c13-sorted-copy-sort', 'C13', FUN, "        return list(sorted(container, key=key, reverse=reverse))", "        out = list(container)\n        out.sort(key=key, reverse=reverse)\n        return out")
 B('c13-new-pure-entry', 'C13', FUN, "    'lower': str.lower,", "    'lower': str.lower,\n    'capitalize': str.capitalize,")
+
+# =============================================================================== C14
+M('c14-get-raw-key', 'C14', 'C14.R1', FUN, "    key = _key_cast(container, key)\n    return container.get(key, default)", "    return container.get(key, default)")
+M('c14-del-raw-key', 'C14', 'C14.R1', FUN, "def _del(container: Any, key: Any) -> Any:\n    key = _key_cast(container, key)\n", "def _del(container: Any, key: Any) -> Any:\n    key = _list_key_cast(key)\n")
+M('c14-set-repr-key', 'C14', 'C14.R1', FUN, "    key = _key_cast(container, key)\n\n    container[key] = copy.deepcopy(value)", "    key = repr(key) if isinstance(container, dict) else _list_key_cast(key)\n\n    container[key] = copy.deepcopy(value)")
+M('c14-literal-raw-key', 'C14', 'C14.R1', AST, "            _dict_key_cast(k.eval(state)): v.eval(state) for k, v in self.d", "            k.eval(state): v.eval(state) for k, v in self.d")
+M('c14-index-rounds', 'C14', None, FUN, "    if isinstance(key, Decimal_):\n        return int(key)\n\n    return key\n\n\ndef _dict_key_cast", "    if isinstance(key, Decimal_):\n        return round(key)\n\n    return key\n\n\ndef _dict_key_cast")
+M('c14-insert-rounds', 'C14', 'C14.R2', FUN, "    return arr.insert(int(i), v)", "    return arr.insert(round(i), v)")
+M('c14-pop-floor', 'C14', 'C14.R2', FUN, "        return arr.pop(int(i)) if i is not None else arr.pop()", "        return arr.pop(math.floor(i)) if i is not None else arr.pop()")
+M('c14-getitem-unguarded', 'C14', 'C14.R3', FUN, "    try:\n        return container[key]\n    except LookupError:\n        raise ParserError(f'Key error \\'{key}\\'')", "    return container[key]")
+M('c14-setwithop-raw-key', 'C14', 'C14.R1', FUN, "    _check_array_size(container)\n\n    key = _key_cast(container, key)\n    value = copy.deepcopy(value)", "    _check_array_size(container)\n\n    value = copy.deepcopy(value)")
+M('c14-getitem-caches-into-container', 'C14', 'C14.R3', FUN, "    key = _key_cast(container, key)\n\n    try:\n        return container[key]", "    key = _key_cast(container, key)\n    if isinstance(container, dict):\n        container.setdefault('_last', key)\n\n    try:\n        return container[key]")
+
+B('c14-inline-cast', 'C14', FUN, "    key = _key_cast(container, key)\n    return container.get(key, default)",
+  "    key = str(key) if isinstance(container, dict) else (int(key) if isinstance(key, Decimal_) else key)\n    return container.get(key, default)")
+B('c14-cast-at-use', 'C14', FUN, "    key = _key_cast(container, key)\n\n    try:\n        return container[key]", "    try:\n        return container[_key_cast(container, key)]")
